@@ -4,12 +4,25 @@ PROPERTIES = {
     "C07": dict(
         modules=["relations", "geometry_ops"],
         level="proof",
-        claim="built-in specifiers and operators have their documented geometric meaning: proved for all inputs relative to the rotation-group axioms (L-rot.*) and the trigonometric identities (A2.*) listed in the evidence",
-        note="rotations are abstract group elements, sin/cos/atan2/asin uninterpreted; floats as reals",
+        claim=(
+            "built-in specifiers and operators have their documented geometric meaning: Vector algebra (sign conventions: heading 0 = +Y, "
+            "counter-clockwise positive), the six directional specifiers (gap between the bounding boxes along X's local axis = D, or half the "
+            "contact tolerance), the facing family (global orientation / line of sight in the parent frame), beyond / offset by / offset along / "
+            "relative to, the scalar operators, sides and corners of objects, Orientation composition / inversion / Euler conversion -- proved "
+            "for all inputs relative to the rotation-group axioms (L-rot.*) and the trigonometric identities (A2.*) listed in the evidence"
+        ),
+        note="rotations are abstract group elements; sin/cos/atan2/asin/hypot uninterpreted with named axioms; floats as reals; coercion helpers and Specifier/DelayedArgument records are trusted stubs",
         assumptions=[
-            "L-rot: scipy Rotation is a group acting on R^3 (inverse, product, identity, Euler ZXY round trip, yaw = planar CCW rotation about +Z)",
-            "A2: trigonometric identities named A2.* (sin^2+cos^2=1, axis values / quadrants / range of atan2, polar form, quarter-turn shifts)",
+            "L-rot: scipy Rotation is a group acting on R^3 (inverse, product, identity, Euler ZXY round trip, from_euler('ZXY',[yaw,pitch,0]) = Rz(yaw) Rx(pitch), from_rotvec([0,0,h]) = Rz(h))",
+            "A2: trigonometric identities named A2.* (sin^2+cos^2=1, axis values / quadrants / range / oddness of atan2, polar form, quarter-turn shift, periodicity, azimuth of a rotated vector)",
+            "A1: hypot is the non-negative root of the sum of squares (A1.hypot_*), quotient * divisor = dividend",
+            "type_support coercions (isA/canCoerce/coerce/toTypes), Specifier and DelayedArgument constructors, valueInContext, Constructible._with, Orientation.__eq__ are stubs for concrete values (listed under trusted_base)",
+            "apparently facing: the parent orientation ranges over planar (yaw-only) rotations; facing toward/away: the yaw is characterised in the parent frame",
         ],
-        not_reached=["numeric conditioning of Euler-angle extraction near gimbal lock (A1)"],
+        not_reached=[
+            "numeric conditioning of Euler-angle extraction near gimbal lock (A1)",
+            "following <field> / VectorField.followFrom (numpy loop), on <region> (projection onto regions: C03/C16), `relative to` with vector fields",
+            "random (distribution-valued) arguments of the operators: lifting is C05",
+        ],
     )
 }
